@@ -12,7 +12,13 @@ import (
 	"verif/mc/hist"
 	"verif/mc/reftrie"
 
+	"context"
+
 	"github.com/NethermindEth/juno/blockchain"
+	"github.com/NethermindEth/juno/core/state"
+	"github.com/NethermindEth/juno/db/memory"
+	"github.com/NethermindEth/juno/migration/state/headstate"
+	"github.com/NethermindEth/juno/utils/log"
 	"github.com/NethermindEth/juno/core"
 	"github.com/NethermindEth/juno/core/felt"
 )
@@ -53,7 +59,13 @@ func TestCheck(t *testing.T) {
 	tempTries(r)
 
 	// ---- layer 2: state commitment through the real Blockchain, both backends ----
-	for _, newState := range []bool{false, true} {
+	type backendCfg struct {
+		newState  bool
+		transform func(*memory.Database) error
+		tag       string
+	}
+	for _, bk := range []backendCfg{{false, nil, ""}, {true, nil, ""}, {true, remigrateHeadState, " +head-state-migration-between-updates"}} {
+		newState := bk.newState
 		for ci, vc := range []struct {
 			name string
 			at   func(uint64) string
@@ -70,9 +82,12 @@ func TestCheck(t *testing.T) {
 			if r.Quick() && ci == 2 {
 				continue
 			}
-			label := vc.name + hist.Backend(newState)
+			if bk.transform != nil && ci != 0 {
+				continue // the migrated-records configuration runs on one protocol version
+			}
+			label := vc.name + hist.Backend(newState) + bk.tag
 			st := hist.Explore(hist.Config{
-				NewState: newState, Depth: ev.Pick(r, 3, 4), VersionAt: vc.at, Run: r, Label: label, NoRevert: true,
+				NewState: newState, Depth: ev.Pick(r, 3, 4), VersionAt: vc.at, Run: r, Label: label, NoRevert: true, Transform: bk.transform,
 				OnStoreFail: func(p *hist.Node, nm chain.Named, err error) {
 					// the block's root IS the reference commitment of the dictionary state: refusing it means juno computed another root
 					r.Violate("valid-block-rejected "+nm.Name+" "+label+exoticName(p, nm), map[string]any{"path": p.PathString(), "block": nm.Name, "err": err.Error()})
@@ -100,6 +115,41 @@ func TestCheck(t *testing.T) {
 		"temporary commitment tries for 0..17 items on both backends. layer 2: BFS over chains of state diffs through the real Blockchain (both backends, 0.13.2 / 0.14.0 / 0.14.1), stored root and the commitment recomputed from the stored tries == reference commitment of the dictionary state; two-blocks-vs-merged-block root equality")
 	r.Assume = append(r.Assume, "Pedersen/Poseidon primitives and felt arithmetic trusted (pinned by the suite's known-answer tests)", "Go map iteration order inside juno is not controlled")
 	r.Finish()
+}
+
+// remigrateHeadState puts every consolidated contract record of a new-state image back into the deprecated
+// per-field layout and runs the REAL head-state migrator over it, so that the next update operates on records as
+// the schema migration leaves them (e.g. with the storage root not yet backfilled). A node that was upgraded
+// from the legacy layout must compute the same roots as one that never was.
+func remigrateHeadState(d *memory.Database) error {
+	touched := false
+	for _, a := range []felt.Felt{chain.AddrA, chain.AddrB, chain.AddrC, chain.Sys1, chain.Sys2} {
+		a := a
+		rec, err := state.GetContract(d, &a)
+		if err != nil {
+			continue
+		}
+		if err := state.DeleteContract(d, &a); err != nil {
+			return err
+		}
+		if err := core.WriteContractClassHash(d, &a, &rec.ClassHash); err != nil {
+			return err
+		}
+		if !rec.Nonce.IsZero() {
+			if err := core.WriteContractNonce(d, &a, &rec.Nonce); err != nil {
+				return err
+			}
+		}
+		if err := core.WriteContractDeploymentHeight(d, &a, rec.DeployedHeight); err != nil {
+			return err
+		}
+		touched = true
+	}
+	if !touched {
+		return nil
+	}
+	_, err := headstate.Migrator{}.Migrate(context.Background(), d, chain.Net, log.NewNopZapLogger())
+	return err
 }
 
 func tempTries(r *ev.Run) {
